@@ -211,6 +211,8 @@ def dec_comp(c):
 
 def dec_expr(e):
     comps = [dec_comp(c) for c in e["c"]]
+    if e.get("npint"):
+        comps = [np.int64(c) if isinstance(c, int) else c for c in comps]
     if e.get("bare") and len(comps) == 1:
         return comps[0]
     return tuple(comps)
@@ -345,10 +347,29 @@ class Run:
         self.compr = list(case.get("compr", "AAA"))
         self.path = os.path.join(ctx.workdir, "c01-%d.nix" % os.getpid())
         self.f = None
-        self.da = None
+        self._das = []
+        self._turn = 0
+        # "two": two retained handles to the same array are used in turn - what is written or resized through
+        # one must be what the other reads and appends to (no per-handle copy of extent, dtype or data)
+        self.handles = case.get("handles", "single")
         self.model = None
         self.flags = set()
         self.nviol = 0
+
+    @property
+    def da(self):
+        if not self._das:
+            return None
+        if self.handles == "two" and self.f is not None:
+            if len(self._das) < 2:
+                self._das.append(self.f.blocks[0].data_arrays[0])
+            self._turn += 1
+            return self._das[self._turn % 2]
+        return self._das[0]
+
+    @da.setter
+    def da(self, h):
+        self._das = [] if h is None else [h]
 
     # -- helpers
     def cmap(self, c):
@@ -639,6 +660,25 @@ class Run:
                 self.flags.add("chunk-crossing")
             kw = {} if (axis == 0 and s.get("axis_default")) else {"axis": axis}
             empty = False
+            odd = s.get("odd")
+            if odd in ("neg", "rank"):
+                # an axis outside 0..rank-1: either the NumPy reading (negative = counted from the end) or a
+                # refusal - never a silent overwrite of what is stored.  axis >= rank has no reading at all:
+                # refused, or at least nothing stored may change
+                given = axis - rank if odd == "neg" else rank + int(s.get("n", 1)) % 2
+                site = "append:axis-negative" if odd == "neg" else "append:axis-out-of-range"
+                self.flags.add(site)
+                try:
+                    self.da.append(arg, axis=given)
+                    raised = False
+                except Exception:                              # noqa: BLE001
+                    raised = True
+                    self.ctx.count(site + "-refused")
+                if not raised and odd == "neg":
+                    model.append(vals, axis)
+                    self.ctx.count(site + "-accepted")
+                self.check(site)
+                return site
 
             def call():
                 self.da.append(arg, **kw)
@@ -788,7 +828,7 @@ def run_case(case, ctx, part="random"):
                "steps:%d" % min(len(steps), 6), "compr-array:" + case.get("compr", "AAA")[2],
                "compr-block:" + case.get("compr", "AAA")[1], "compr-file:" + case.get("compr", "AAA")[0],
                "shape:" + ("long" if long_ else "small")]
-    classes += sorted(run.flags)
+    classes += sorted(run.flags) + ["handles:" + case.get("handles", "single")]
     classes += ["fill:" + f for f in sorted(fills)]
     if "reopen" in done:
         classes.append("reopen-mid-history")
@@ -820,6 +860,10 @@ def expr_for(draw, shape):
             return draw(st.one_of(st.integers(-n, n - 1), slc, slc, full))
         return draw(st.one_of(slc, full))
 
+    if rank >= 1 and shape[0] > 0 and draw(st.integers(0, 6)) == 0:
+        # a single integer for the first axis, bare or as 1-tuple (0 is falsy: 'no index given' shortcuts)
+        k = draw(st.sampled_from([0, 0, 0, -1, shape[0] - 1, -shape[0]]))
+        return {"c": [k], "bare": draw(st.sampled_from([True, True, False])), "npint": draw(st.booleans())}
     ncomp = draw(st.integers(0, rank))
     comps = [comp(shape[i]) for i in range(ncomp)]
     if draw(st.integers(0, 3)) == 0:
@@ -926,6 +970,10 @@ def case_strategy(draw):
             s["n"] = n
             if axis == 0 and draw(st.booleans()):
                 s["axis_default"] = True
+            elif n > 0 and draw(st.integers(0, 7)) == 0:
+                s["odd"] = draw(st.sampled_from(["neg", "neg", "rank"]))
+                if s["odd"] == "rank":
+                    cur[axis] -= n          # refused (or without effect): the extent stays
             s["lay"] = draw(_lays(dt, True))
             cur[axis] += n
         elif op == "resize":
@@ -941,7 +989,8 @@ def case_strategy(draw):
             s["ext"] = ext
             cur = list(ext)
         steps.append(s)
-    return {"dt": dt, "shape": shape, "create": create, "compr": compr, "steps": steps}
+    return {"dt": dt, "shape": shape, "create": create, "compr": compr, "steps": steps,
+            "handles": draw(st.sampled_from(["single", "two", "two"]))}
 
 
 # two fixed histories for the exhaustive element type x creation path x compression grid
@@ -975,7 +1024,7 @@ def grid_cases(tier):
 
 
 def shards(tier, seed):
-    n, per = (16, 38) if tier == "quick" else (64, 470)
+    n, per = (16, 80) if tier == "quick" else (64, 470)
     specs = [{"part": "random", "n": per, "seed": seed * 1000 + i} for i in range(n)]
     ngrid = 16
     specs += [{"part": "grid", "tier": tier, "i": i, "of": ngrid, "seed": seed} for i in range(ngrid)]
